@@ -262,6 +262,21 @@ class Evaluator:
                     res = hooked
                 elif name in CMP_CALLS and len(args) == 2 and last_seg(cal.get("trait")) in ("PartialOrd", "PartialEq"):
                     res = self.compare(CMP_CALLS[name], args[0], args[1])
+                elif name == "cmp" and len(args) == 2 and last_seg(cal.get("trait")) == "Ord" and args[0][0] == "tuple" and args[1][0] == "tuple" \
+                        and len(args[0][1]) == len(args[1][1]):
+                    # tuples order lexicographically: the first component that differs decides
+                    rel = 0
+                    for xa, xb in zip(args[0][1], args[1][1]):
+                        ca, cb = self.classify(xa), self.classify(xb)
+                        if ca is None or cb is None:
+                            raise Undecided("cmp of unclassified tuple components")
+                        r = self.relation(ca, cb)
+                        if r is None:
+                            raise Undecided("cmp of unordered tuple components")
+                        if r != 0:
+                            rel = r
+                            break
+                    res = ("ordering", rel)
                 elif name == "cmp" and len(args) == 2 and last_seg(cal.get("trait")) == "Ord":
                     ca, cb = self.classify(args[0]), self.classify(args[1])
                     if ca is None or cb is None:
